@@ -393,7 +393,8 @@ PROPS["C07"] = {
     "assumptions": ["process death (e.g. a stub jumping through collected memory) is turned into a violation by re-executing the journalled case"],
     "floors": [("histories", "call/unmocked-slot-panics", 100), ("histories", "call/mocked-slot-after-gc", 100),
                ("histories", "call/mocked-slot-after-builder-dropped", 50), ("histories", "variable-with->=2-mocked-slots", 100),
-               ("histories", "instruction-through-a-kept-method-handle", 50)],
+               ("histories", "instruction-through-a-kept-method-handle", 50), ("histories", "reset-restores-real-implementation-after-gc", 40),
+               ("histories", "mocked-value-copied-to-another-variable", 40)],
 }
 
 PROPS["C04"] = {
